@@ -1,4 +1,5 @@
 import GSProofs.Lemmas.TaskQueueCap
+import GS.Generated.TaskWiring
 /-!
 # C21 — Work limits are respected and every queued request eventually runs
 
@@ -154,6 +155,36 @@ def zeroWorkActs : List Act :=
 theorem per_peer_counterexample :
     ∃ acts s, runList (Sys.init 2 1) acts = some s ∧ runningFor s 0 = 2 :=
   ⟨zeroWorkActs, (runList (Sys.init 2 1) zeroWorkActs).getD {}, by decide, by decide⟩
+
+/-! ## How graphsync instantiates the model (regenerated from the source on every run)
+
+`GS.Generated.TaskWiring` is extracted by translate/taskwiring from impl/graphsync.go,
+taskqueue/taskqueue.go and the two managers; the theorem below is re-checked against it. -/
+
+open GS.Generated.TaskWiring in
+/-- The parameters of `global` / `per_peer` are the configured limits:
+    * the option `MaxInProgressOutgoingRequests` is the worker count `W` of the queue run by the
+      request executor, which has no per-peer cap; `MaxInProgressIncomingRequests` is the worker
+      count of the queue run by the query executor, which is the queue created with the
+      peertaskqueue options; `Startup` starts exactly that many workers;
+    * `MaxOutstandingWorkPerPeer` is passed exactly when `MaxInProgressIncomingRequestsPerPeer > 0`,
+      with that value (`cap`);
+    * defaults 6 / 6 / unlimited;
+    * every task pushed by the managers has `Work: 1` (hypothesis `wfAct` of `per_peer`), and the
+      worker pops with `targetMinWork = 1` (the model's `pop q 1`); the wake-up channel has
+      capacity 1 (the model's `signal : Bool`). -/
+theorem wiring :
+    (∃ rq pq fOut fIn fPeer,
+      queues = [(rq, ""), (pq, capVar)] ∧
+      startups = [(rq, fOut, "executor.NewExecutor"), (pq, fIn, "queryexecutor.New")] ∧
+      options = [("MaxInProgressIncomingRequests", fIn), ("MaxInProgressIncomingRequestsPerPeer", fPeer),
+                 ("MaxInProgressOutgoingRequests", fOut)] ∧
+      capGuard = fPeer ∧ capArg = fPeer ∧ rq ≠ pq ∧
+      defaults.lookup fOut = some 6 ∧ defaults.lookup fIn = some 6 ∧ defaults.lookup fPeer = some 0) ∧
+    startupExact = true ∧ popTarget = 1 ∧ signalCap = 1 ∧ 0 < thawMs ∧
+    pushWorks ≠ [] ∧ ∀ w ∈ pushWorks, w.2 = 1 := by
+  refine ⟨⟨_, _, _, _, _, rfl, rfl, rfl, rfl, rfl, by decide, by decide, by decide, by decide⟩,
+    rfl, rfl, rfl, by decide, by decide, by decide⟩
 
 /-! ## No lost wake-up -/
 
